@@ -98,6 +98,11 @@ def run(tier, seed, replay):
                "XDG_CONFIG_HOME": ["/tmp", "/nonexistent", ""][k % 3],
                "LANG": ["C", "en_US.UTF-8", "tr_TR.UTF-8"][k % 3], "TZ": ["UTC", "Asia/Tokio", ""][k % 3],
                "RUST_BACKTRACE": str(k % 2), "W2W_NOISE_%d" % k: "x" * k}
+        # variables build tools set: none of them is an input of the generator
+        if k % 3 == 1:
+            env.update({"DOCS_RS": "1", "CI": "true", "PROFILE": "release", "DEBUG": "false", "OUT_DIR": "/tmp", "CARGO_CFG_TARGET_OS": "windows"})
+        elif k % 3 == 2:
+            env.update({"RUST_LOG": "trace", "NO_COLOR": "1", "TERM": "dumb", "CARGO_FEATURE_SERDE": "1", "WGSL_TO_WGPU_CACHE": "1", "SOURCE_DATE_EPOCH": "0"})
         if k % 4 == 1:
             env["RUSTFMT"] = "/nonexistent/rustfmt"       # tool-selection variables other programs honour must not matter
         elif k % 4 == 2:
